@@ -178,40 +178,54 @@ example : segmentsAtDistance chain3 (fun _ => 4) 4 (-1) 3 = some [(3, -1/4)] := 
 
 /-! ## 7. `get_segment_location_info` -/
 
-/-- whenever `get_segment_location_info` returns, its length is the segment's length and its distance from the cell
-    root is the path length by definition -/
+/-- **`get_segment_location_info` (repaired: the walk stops at the morphology root) returns for EVERY segment of every
+    tree** — the full statement, formerly the known finding `C13:location-info:no-branching-ancestor` —: the length is
+    the segment's length, the distance from the cell root is the path length by definition, and the "distance from the
+    nearest branching point" is the graph distance from `cur`, the first segment of the unbranched stretch containing
+    `i` (the root of the morphology when no branch point lies above `i`) -/
+theorem c13_location_info_full {m : Morph} {root : Nat} (h : IsTree m root) (len : Nat → Rat) {i : Nat}
+    (hi : i ∈ ids m) :
+    ∃ res cur, segmentLocationInfo m len (m.length + 1) i = some res ∧ res.length = len i ∧
+      ToProxS m len i res.fromRoot ∧ StretchTopS m i cur ∧
+      distance m len (m.length + 1) cur i = some res.fromBranch := by
+  have hroot := c13_root h len
+  obtain ⟨x, hx, hS⟩ := c13_distance_root h len hi
+  obtain ⟨r, wt⟩ := h
+  obtain ⟨wt', hbd⟩ := wt.compress
+  obtain ⟨cur, hcur, hanc, htop⟩ := walkBranch_spec wt'.toWfForest len _ i hi (hbd i hi)
+  have hcm := anc_mem wt'.toWfForest hanc hi
+  obtain ⟨y, hy⟩ := distUp_anc wt'.toWfForest len cur _ i hanc (hbd i hi)
+  have hdc : distanceG (getGraph m len) (m.length + 1) cur i = some y := by
+    unfold distanceG
+    simp only [(mem_nodes wt'.toWfForest len cur).2 hcm, if_true]
+    exact hy
+  refine ⟨⟨len i, x, y⟩, cur, ?_, rfl, hS, htop, hdc⟩
+  unfold segmentLocationInfo segmentLocationInfoG locInfoWith
+  unfold morphologyRoot at hroot
+  unfold distance at hx
+  rw [hroot]
+  simp only [hx, hcur, hdc]
+
+/-- whenever it returns (any fuel bound the driver uses), length and distance from the cell root are right -/
 theorem c13_location_info_sound {m : Morph} {root : Nat} (h : IsTree m root) (len : Nat → Rat) {i : Nat}
     (hi : i ∈ ids m) {res : LocInfo} (hres : segmentLocationInfo m len (m.length + 1) i = some res) :
     res.length = len i ∧ ToProxS m len i res.fromRoot := by
-  have hroot := c13_root h len
-  obtain ⟨x, hx, hS⟩ := c13_distance_root h len hi
-  unfold segmentLocationInfo segmentLocationInfoG at hres
-  unfold morphologyRoot at hroot
-  unfold distance at hx
-  rw [hroot] at hres
-  simp only [hx] at hres
-  split at hres
-  · cases hres
-  · split at hres
-    · cases hres
-    · cases hres; exact ⟨rfl, hS⟩
+  obtain ⟨res', _, h1, h2, h3, _⟩ := c13_location_info_full h len hi
+  rw [h1] at hres; cases hres; exact ⟨h2, h3⟩
 
-/-- FULL statement (does not hold for the current code): location info is available for every segment -/
-def c13_location_info_full : Prop :=
-  ∀ (m : Morph) (root : Nat) (len : Nat → Rat), IsTree m root → ∀ i ∈ ids m,
-    (segmentLocationInfo m len (m.length + 1) i).isSome
+/-! ### the code before the repair `fixes/C13-location-info-stops-at-root.patch` (`…Old`) -/
 
-/-- what holds: it is available for every segment that has a branch point above it … -/
-theorem c13_location_info_partial {m : Morph} {root : Nat} (h : IsTree m root) (len : Nat → Rat) {i : Nat}
-    (hi : i ∈ ids m) (hb : HasBranchAbove m i) : (segmentLocationInfo m len (m.length + 1) i).isSome := by
+/-- the old method returned for every segment that has a branch point above it … -/
+theorem c13_unfixed_location_info_partial {m : Morph} {root : Nat} (h : IsTree m root) (len : Nat → Rat) {i : Nat}
+    (hi : i ∈ ids m) (hb : HasBranchAbove m i) : (segmentLocationInfoOld m len (m.length + 1) i).isSome := by
   have hroot := c13_root h len
   obtain ⟨x, hx, _⟩ := c13_distance_root h len hi
   obtain ⟨r, wt⟩ := h
   obtain ⟨wt', hbd⟩ := wt.compress
-  obtain ⟨cur, hcur, hanc⟩ := walkBranch_some wt'.toWfForest len _ i hb (hbd i hi)
+  obtain ⟨cur, hcur, hanc⟩ := walkBranchOld_some wt'.toWfForest len _ i hb (hbd i hi)
   have hcm := anc_mem wt'.toWfForest hanc hi
   obtain ⟨y, hy⟩ := distUp_anc wt'.toWfForest len cur _ i hanc (hbd i hi)
-  unfold segmentLocationInfo segmentLocationInfoG
+  unfold segmentLocationInfoOld segmentLocationInfoOldG locInfoWith
   unfold morphologyRoot at hroot
   unfold distance at hx
   rw [hroot]
@@ -222,16 +236,38 @@ theorem c13_location_info_partial {m : Morph} {root : Nat} (h : IsTree m root) (
     exact hy
   rw [this]; rfl
 
-/-- … and it raises (`IndexError`) for EVERY segment without one — the root of every cell in particular.
-    KNOWN FINDING `C13:location-info:no-branching-ancestor`. -/
-theorem c13_location_info_none {m : Morph} (h : IsForest m) (len : Nat → Rat) {i : Nat} (hn : NoBranchAbove m i)
-    (fuel : Nat) : segmentLocationInfo m len fuel i = none := by
+/-- … and raised (`IndexError`) for EVERY segment without one — the root of every cell in particular (the repaired
+    finding `C13:location-info:no-branching-ancestor`) -/
+theorem c13_unfixed_location_info_none {m : Morph} (h : IsForest m) (len : Nat → Rat) {i : Nat}
+    (hn : NoBranchAbove m i) (fuel : Nat) : segmentLocationInfoOld m len fuel i = none := by
   obtain ⟨r, wf⟩ := h
-  unfold segmentLocationInfo segmentLocationInfoG
-  rw [walkBranch_none wf len hn fuel]
+  unfold segmentLocationInfoOld segmentLocationInfoOldG locInfoWith
+  rw [walkBranchOld_none wf len hn fuel]
   split
   · rfl
   · split <;> rfl
+
+/-- the repair changed nothing where the old method returned -/
+theorem c13_unfixed_location_info_agrees (m : Morph) (len : Nat → Rat) (fuel i : Nat) (res : LocInfo)
+    (h : segmentLocationInfoOld m len fuel i = some res) : segmentLocationInfo m len fuel i = some res := by
+  unfold segmentLocationInfoOld segmentLocationInfoOldG locInfoWith at h
+  unfold segmentLocationInfo segmentLocationInfoG locInfoWith
+  cases hr : morphologyRootG m (getGraph m len) with
+  | none => rw [hr] at h; cases h
+  | some root =>
+    rw [hr] at h
+    simp only at h ⊢
+    cases hd : distanceG (getGraph m len) fuel root i with
+    | none => rw [hd] at h; cases h
+    | some d =>
+      rw [hd] at h
+      simp only at h ⊢
+      cases hw : walkBranchOld (getGraph m len) fuel i with
+      | none => rw [hw] at h; cases h
+      | some cur =>
+        rw [hw] at h
+        rw [walkBranch_of_old _ _ _ _ hw]
+        exact h
 
 /-! ## witnesses and examples -/
 
@@ -292,13 +328,17 @@ example : ∀ i ∈ ids exTree, (0 : Rat) ≤ (fun _ => (2 : Rat)) i := by intro
 /-- the model computes on it (root id 7; distance to segment 0 is `1/4·len 7 + 1/4·len 3`) -/
 example : morphologyRoot exTree (fun _ => 2) = some 7 := by decide +kernel
 
-/-- WITNESS for the known finding: the full statement fails — the root of `exTree` has no location info -/
-theorem c13_location_info_witness : ¬ c13_location_info_full := by
-  intro h
-  have := h exTree 7 (fun _ => 2) exTree_isTree 7 (by decide)
-  rw [c13_location_info_none exTree_isTree.isForest (fun _ => 2)
-    (.root (s := ⟨7, none, some (pt 0 0 0 3), pt 0 (-4) 0 1⟩) rfl rfl)] at this
-  cases this
+/-- WITNESS of the repaired finding: before the repair the root of `exTree` had no location info; now it has, measured
+    from itself; segment 0 (below the branch point 7, behind the only child 3) is measured from segment 3 -/
+theorem c13_unfixed_location_info_witness :
+    segmentLocationInfoOld exTree (fun _ => 2) 6 7 = none ∧
+    (segmentLocationInfo exTree (fun _ => 2) 6 7).map (fun r => (r.length, r.fromRoot, r.fromBranch)) = some (2, 0, 0) ∧
+    (segmentLocationInfo exTree (fun _ => 2) 6 0).map (fun r => (r.length, r.fromRoot, r.fromBranch)) = some (2, 1, 1/2) := by
+  decide +kernel
+
+example : StretchTopS exTree 0 3 :=
+  .up (s := ⟨0, some (3, 1/4), none, pt 0 0 5 1⟩) rfl rfl (by decide)
+    (.branch (s := ⟨3, some (7, 1/4), none, pt 0 (-1) 8 3⟩) rfl rfl (by decide))
 
 /-! ### the two defects repaired by `fixes/C13-graph-nodes-and-tip-distance-root.patch` (old code, `…Old`) -/
 
